@@ -38,6 +38,7 @@ class Contract:
         self.unroll = kw.pop("unroll", {})
         self.opaque_raise = kw.pop("opaque_raise", False)
         self.bind = kw.pop("bind", {})
+        self.prop = kw.pop("prop", False)
         if kw:
             raise TypeError("unknown contract keys %s for %s" % (sorted(kw), fid))
 
@@ -65,8 +66,8 @@ def spec(name, params, ret, body, rec=False, note=""):
     SPECS[name] = dict(name=name, params=ps, ret=ret, body=body, rec=rec, note=note)
 
 
-def klass(name, bases=(), fields=None, exception=False):
-    CLASSES[name] = dict(name=name, bases=tuple(bases), fields=dict(fields or {}), exception=exception)
+def klass(name, bases=(), fields=None, exception=False, module=None):
+    CLASSES[name] = dict(name=name, bases=tuple(bases), fields=dict(fields or {}), exception=exception, module=module)
 
 
 def ghost(name, ty):
